@@ -59,7 +59,7 @@ def run(chk):
         reads = {p for _, p in stream_decls(fn, "ifstream")}
         writes = {p for _, p in stream_decls(fn, "ofstream")} | {p for _, p in stream_decls(ckpt, "ofstream")}
         # the copy source inside checkpoint() is not a recovery read
-        chk.ob("C17-D1.files", name, "recovery reads %s / checkpoints write %s" % (sorted(reads), sorted(writes)), reads == writes and len(reads) == 2, fn.where,
+        chk.ob("C17-D1.files", fn.name, "recovery read set == checkpoint write set", reads == writes and len(reads) == 2, fn.where,
                "files read on recovery: %s, files written by checkpoints: %s" % (sorted(reads), sorted(writes)))
         # ---- D2
         ofs = stream_decls(ckpt, "ofstream")
@@ -109,7 +109,7 @@ def run(chk):
                 detail = "copy %s -> %s %s the truncation, backup stream %s first" % (spath, dpath, "precedes" if before else "does NOT precede", "closed" if closed else "NOT closed")
             elif spath == main[1] and dpath == main[1]:
                 detail = "the backup stream is opened on %s, the very file it copies from: %s is never written" % (dpath, sorted(reads - {main[1]}))
-        chk.ob("C17-D2.backup", ckpt.key, "backup of %s before it is truncated" % main[1], ok, ckpt.loc(main[0]), detail)
+        chk.ob("C17-D2.backup", fn.name + "::checkpoint", "backup of %s before it is truncated" % main[1], ok, ckpt.loc(main[0]), detail)
         # the initial checkpoint (outside the lambda) writes the main file only after the recovery block
         # ---- D3
         tries = [n for n in walk(fn.body, into_lambda=False) if n.get("k") == "CXXTryStmt"]
